@@ -56,3 +56,20 @@ Proof.
   apply backend_ignores_spans. unfold same_modulo_spans, er in *. cbn [r_vars r_stmts]. injection H as Hv _.
   rewrite Hv, El. reflexivity.
 Qed.
+
+(* (3) empties_same_lua: removing every EmptyStatement (blank lines, comment-only lines) from every statement list
+   changes nothing of the pipeline either (Resolve/EmptiesProofs.v); and both normalisations together. *)
+From Sylt Require Import Resolve.Empties Resolve.EmptiesProofs.
+
+Theorem empties_same_lua fl tgt fuel_tc fuel req ast :
+  pipeline fl tgt fuel_tc fuel req (drop_empties ast) = pipeline fl tgt fuel_tc fuel req ast.
+Proof. unfold pipeline. rewrite resolve_drops_empties. reflexivity. Qed.
+
+Theorem parens_and_empties_same_lua fl tgt fuel_tc fuel req a1 a2 :
+  drop_empties (strip_parens a1) = drop_empties (strip_parens a2) ->
+  pipeline fl tgt fuel_tc fuel req a1 = pipeline fl tgt fuel_tc fuel req a2.
+Proof.
+  intros H. rewrite <- (parens_same_lua fl tgt fuel_tc fuel req a1), <- (parens_same_lua fl tgt fuel_tc fuel req a2).
+  rewrite <- (empties_same_lua fl tgt fuel_tc fuel req (strip_parens a1)),
+          <- (empties_same_lua fl tgt fuel_tc fuel req (strip_parens a2)), H. reflexivity.
+Qed.
